@@ -298,6 +298,8 @@ void mcount_save_arch_context(struct mcount_arch_context *ctx)
 	if (mcount_arch_have_avx < 0)
 		mcount_arch_have_avx = mcount_arch_check_avx();
 
+	asm volatile("stmxcsr %0\n" : "=m"(ctx->mxcsr));
+
 	if (mcount_arch_have_avx == 2)
 		mcount_save_arch_context_avx512(ctx);
 	else if (mcount_arch_have_avx == 1)
@@ -314,4 +316,6 @@ void mcount_restore_arch_context(struct mcount_arch_context *ctx)
 		mcount_restore_arch_context_avx(ctx);
 	else
 		mcount_restore_arch_context_sse(ctx);
+
+	asm volatile("ldmxcsr %0\n" ::"m"(ctx->mxcsr));
 }
